@@ -152,6 +152,9 @@ func setupDo(s, ns *slip.Scope, args slip.List, depth int) (steps []*stepBind, t
 	} else {
 		if t1, ok3 := list[0].(slip.List); ok3 {
 			test = slip.ListToFunc(ns, t1, depth)
+		} else {
+			// A test that is not a list, t or a variable, is a form too.
+			test = list[0]
 		}
 		rforms = list[1:]
 	}
